@@ -88,7 +88,7 @@ def isometry_to(ctx, n):
     ctx.ensure_eq('preserves_minkowski_form', M @ J @ M.T, J, tol=1e-6)
 
 
-@rcontract(P, "standard_rotation", instances=[dict(n=2), dict(n=3)], thorough=[dict(n=4)],
+@rcontract(P, "standard_rotation", instances=[dict(n=2), dict(n=3), dict(n=4)], thorough=[],
            functions=[H + "Isometry.standard_rotation", H + "Isometry.elliptic", U + "rotation_matrix", U + "identity", U + "array_like", U + "cos", U + "sin"])
 def standard_rotation(ctx, n):
     th = ctx.real('theta', lambda r: r.uniform(-3, 3))
@@ -112,7 +112,7 @@ def elliptic_block(ctx, n):
     is_isometry(ctx, M2, n, tag="rows_")
 
 
-@rcontract(P, "standard_loxodromic", instances=[dict(n=2), dict(n=3)], thorough=[dict(n=4)],
+@rcontract(P, "standard_loxodromic", instances=[dict(n=2), dict(n=3), dict(n=4)], thorough=[],
            functions=[H + "Isometry.standard_loxodromic", H + "_loxodromic_basis_change", U + "invert"])
 def standard_loxodromic(ctx, n):
     lam = ctx.real('lam', lambda r: r.choice([-1, 1]) * r.uniform(0.3, 3))
@@ -146,13 +146,13 @@ def spacelike(ctx, name, n, stratum="generic"):
     for i in range(n + 1):
         if i in zero:
             v[i] = 0 * v[i]
-        elif n == 2 or stratum != "generic":
+        else:       # (for n = 3 only the generic stratum is instantiated; the others are covered by the bounded enumeration)
             ctx.assume(v[i] * v[i], '>', 0)
     ctx.assume(spec.mink(v, v), '>', 1e-6)
     return v
 
 
-@rcontract(P, "spacelike_to", instances=[dict(n=2, stratum=s_) for s_ in SPACELIKE_STRATA], thorough=[dict(n=3, stratum="generic")], timeout=120.0, max_paths=60,
+@rcontract(P, "spacelike_to", instances=[dict(n=2, stratum=s_) for s_ in SPACELIKE_STRATA] + [dict(n=3, stratum="generic")], thorough=[], timeout=120.0, max_paths=60,
            functions=[H + "spacelike_to", H + "spacelike", U + "find_isometry", U + "normalize", U + "projection"])
 def spacelike_to(ctx, n, stratum):
     v = spacelike(ctx, 'v', n, stratum)
@@ -161,7 +161,7 @@ def spacelike_to(ctx, n, stratum):
     ctx.ensure_eq('sends_e1_to_the_vector', M[1:2], v[None, :], proj=True, tol=1e-6)
 
 
-@rcontract(P, "reflection_across", instances=[dict(n=2, stratum=s_) for s_ in SPACELIKE_STRATA], thorough=[dict(n=3, stratum="generic")], timeout=150.0, max_paths=60,
+@rcontract(P, "reflection_across", instances=[dict(n=2, stratum=s_) for s_ in SPACELIKE_STRATA] + [dict(n=3, stratum="generic")], thorough=[], timeout=150.0, max_paths=60,
            functions=[H + "Subspace.reflection_across", H + "Hyperplane.__init__", H + "Hyperplane._compute_ideal_basis", H + "Hyperplane._data_with_dual",
                       H + "spacelike_to", U + "invert"])
 def reflection_across(ctx, n, stratum):
@@ -170,7 +170,7 @@ def reflection_across(ctx, n, stratum):
     is_isometry(ctx, R, n)
 
 
-@rcontract(P, "compose_and_invert", instances=[dict(n=1), dict(n=2)], thorough=[dict(n=3)],
+@rcontract(P, "compose_and_invert", instances=[dict(n=1), dict(n=2), dict(n=3)], thorough=[],
            functions=["geometry_tools/projective.py:Transformation.apply", "geometry_tools/projective.py:Transformation.__matmul__",
                       "geometry_tools/projective.py:Transformation.inv", U + "matrix_product", U + "invert"])
 def compose_and_invert(ctx, n):
